@@ -428,7 +428,19 @@ func (rf *Ref) execBody(params []string, args []V, body []Stmt, catches []Catch,
 		if err == nil && c == cNone {
 			res = nil // no 输出 executed
 			if isProg {
-				if n := len(body); n > 0 {
+				// the final expression statement: definitions written after it are not
+				// statements that run (they are hoisted), so they do not change the result
+				n := len(body)
+				for n > 0 {
+					if fd, isF := body[n-1].(Func); isF && !fd.Ctor {
+						n--
+					} else if _, isC := body[n-1].(Class); isC {
+						n--
+					} else {
+						break
+					}
+				}
+				if n > 0 {
 					if _, isE := body[n-1].(ExprStmt); isE {
 						res = rf.lastVal
 						rf.ResultDefined = true
@@ -501,6 +513,14 @@ func (rf *Ref) execBlock(body []Stmt) (ctl, V, *ZErr) {
 
 func (rf *Ref) exec(s Stmt) (ctl, V, *ZErr) {
 	rf.tick()
+	switch d := s.(type) {
+	case Func:
+		if !d.Ctor {
+			return cNone, nil, nil // hoisted: not a statement that runs, the block's value stays
+		}
+	case Class:
+		return cNone, nil, nil
+	}
 	rf.lastVal = Null{}
 	switch v := s.(type) {
 	case Decl:
